@@ -227,6 +227,38 @@ def check_annotate(rec, p, c, root: Path, idx: int):
     rec.check(all(ann[k] is None for k in rest), "c18:annotate:unchanged-path-has-node", "an unchanged path is annotated with a node", case, [F_ANN])
 
 
+def shape(tree):
+    """What a snapshot of a materialised tree must look like up to the file hashes: same names, a dict per directory (also an EMPTY one),
+    the link target per symlink, one value per distinct file content."""
+    return {k: shape(v) if isinstance(v, dict) else v if v.startswith("symlink:") else "file:" + v for k, v in tree.items()}
+
+
+def snapshot_shape(snap, content_of):
+    return {k: snapshot_shape(v, content_of) if isinstance(v, dict) else v if v.startswith("symlink:") else "file:" + content_of.get(v, "?") for k, v in snap.items()}
+
+
+def check_disk_pair(rec, p, c, root: Path, idx: int):
+    """The documented use: both snapshots are taken by the library (dir_hashsums) from directories on disk. The producer must hand the diff a
+    snapshot with an entry for every path of the directory -- the dict-level statements are then checked on the real snapshots."""
+    from metador_core.util.hashsums import dir_hashsums, qualified_hashsum
+
+    case = {"prev": p, "curr": c, "disk": True}
+    snaps = []
+    for side, t in (("p", p), ("c", c)):
+        bd = root / f"d{idx}{side}"
+        materialise(t, bd)
+        try:
+            with watchdog(10):
+                sn = dir_hashsums(bd)
+        except Exception:  # noqa  (what the producer refuses is C19's subject)
+            return 0
+        contents = {v for q in all_paths(t) for v in [lookup(t, q)] if isinstance(v, str) and not v.startswith("symlink:")}
+        content_of = {qualified_hashsum(v.encode("utf-8")): v for v in contents}
+        rec.check(snapshot_shape(sn, content_of) == shape(t), "c18:disk:snapshot-misses-or-invents-paths", f"dir_hashsums of the materialised tree {t} is {sn}: not one entry per path with its kind", case, ["util/hashsums.py:dir_hashsums"])
+        snaps.append(sn)
+    return check_pair(rec, snaps[0], snaps[1], tag="disk", deep=False)
+
+
 # ------------------------------------------------------------------ enumeration
 
 NAMES = ("a", "b")
@@ -410,6 +442,25 @@ def run(tier: str, seed: int) -> dict:
             na += 1
     bounds.append(f"{na} annotate() calls on materialised new trees")
 
+    # (5) snapshots taken by the library itself from directories on disk (empty directories, file <-> directory replacements included)
+    ndk = 0
+    with tmpdir() as td:
+        R3 = rng(seed, "c18-disk")
+        lo = tree_space(["sha256:1"])  # symlink-free: every materialised tree is inside what dir_hashsums accepts
+        for i in range(120 if quick else 1200):
+            if i < len(lo):
+                p, c = lo[i], lo[(i * 7 + 3) % len(lo)]
+            else:
+                p, c = R3.choice(lo), R3.choice(lo)
+            try:
+                k = check_disk_pair(rec, p, c, td, ndk)
+            except Exception as e:  # noqa
+                rec.violated(f"c18:disk:raises:{type(e).__name__}", f"diff of two library-made snapshots raised {type(e).__name__}: {e}", {"prev": p, "curr": c, "disk": True}, [F_CMP])
+                k = 0
+            rec.case(("disk", digest(p), digest(c)), nontrivial=k > 0)
+            ndk += 1
+    bounds.append(f"{ndk} pairs of directories on disk snapshotted by dir_hashsums (names {{a,b}}, depth <= 2, empty directories included)")
+
     return rec.result(
         rule="a case is an ordered pair (prev, curr) of snapshot trees (distinct by content); non-trivial = the trees differ (at least one expected diff node)",
         bound=" | ".join(bounds),
@@ -431,6 +482,9 @@ def replay(case: dict):
     if case.get("annotate"):
         with tmpdir() as td:
             check_annotate(rec, case["prev"], case["curr"], td, 0)
+    elif case.get("disk"):
+        with tmpdir() as td:
+            check_disk_pair(rec, case["prev"], case["curr"], td, 0)
     else:
         check_pair(rec, case["prev"], case["curr"])
     if rec.violations:
